@@ -138,6 +138,55 @@ def run(ck):
                 meta.append(("read", inp, canon_read(back)))
                 if len(ck.samples) < 3:
                     ck.sample({k_: v for k_, v in inp.items() if k_ != "raw"})
+        # ---- the caller's object is untouched also when the writer has to rescale: the header's scaling was
+        # re-bound after the records were built (finer, coarser, shifted, nearly equal), so the writer rescales a
+        # temporary and must leave the caller's integers exactly as they were
+        for k in range(40 if ck.tier == "quick" else 600):
+            minor, fmt = ck.rng.choice(fio.PAIRS)
+            n = ck.rng.choice([1, 2, 5, 9])
+            rs = [ck.rng.choice([0.001, 0.01, 0.5, 0.125]) for _ in range(3)]
+            ro = [ck.rng.choice([0.0, 100.0, -12.25, 500000.0]) for _ in range(3)]
+            las = fio.make_las(ck.rng, minor, fmt, n, scales=rs, offsets=ro)
+            for d in "XYZ":
+                las.points.array[d] = np.array([ck.rng.choice([1, 2, 3, 12345, -7, 999999, ck.rng.randrange(-10**6, 10**6)]) for _ in range(n)], dtype="i4")
+            how = ck.rng.choice(["coarser", "finer", "shifted", "nearly_equal_offset", "nearly_equal_scale"])
+            hs, ho = list(rs), list(ro)
+            if how == "coarser":
+                hs = [x * ck.rng.choice([10.0, 4.0, 3.0]) for x in rs]
+            elif how == "finer":
+                hs = [x / ck.rng.choice([10.0, 4.0]) for x in rs]
+            elif how == "shifted":
+                ho = [x + ck.rng.choice([1.0, -0.3, 17.5]) for x in ro]
+            elif how == "nearly_equal_offset":
+                ho = [x + (3.0 if abs(x) > 1e5 else 2.0 ** -30) for x in ro]
+            else:
+                hs = [x * (1 + 2.0 ** -18) for x in rs]
+            las.header.scales = np.array(hs)
+            las.header.offsets = np.array(ho)
+            inp = {"kind": "rescaling_write", "minor": minor, "fmt": fmt, "n": n, "how": how, "record_scales": rs, "record_offsets": ro,
+                   "header_scales": hs, "header_offsets": ho, "X": las.points.array["X"].tolist()}
+            ck.case(("c01r", minor, fmt, how, tuple(rs), tuple(ro), las.points.array.tobytes()), nontrivial=True)
+            ck.count("rescaling_write:" + how)
+            before = fio.snapshot(las)
+            want = [np.array(las.x), np.array(las.y), np.array(las.z)]
+            buf = io.BytesIO()
+            try:
+                las.write(buf)
+            except OverflowError:
+                ck.count("rescaling_write_overflow")
+                if fio.snapshot(las) != before:
+                    ck.fail("a refused write (OverflowError) modified the in-memory object it was given", dict(inp, finding_key="C01:pure"))
+                continue
+            if fio.snapshot(las) != before:
+                ck.fail(f"writing (header scaling {how} than/from the record's) modified the in-memory object it was given", dict(inp, finding_key="C01:pure"))
+            back = laspy.read(io.BytesIO(buf.getvalue()))
+            got = [np.array(back.x), np.array(back.y), np.array(back.z)]
+            for ax in range(3):
+                tol = hs[ax] / 2 * (1 + 1e-9) + abs(ho[ax]) * 1e-15 + abs(ro[ax]) * 1e-15
+                if np.any(np.abs(got[ax] - want[ax]) > tol):
+                    ck.fail(f"written file (header scaling {how}) does not hold the caller's coordinates to within half a step on axis {ax}: "
+                            f"{want[ax][:3].tolist()} -> {got[ax][:3].tolist()}", inp)
+                    break
     finally:
         shutil.rmtree(tmpdir, ignore_errors=True)
     out = ck.driver(lines)
